@@ -975,6 +975,78 @@ def _finish(ctx, spec, stats, idx):
         ctx.add_to_set("models_left_at_closure", stats["closed_with_models"])
 
 
+def run_initialize(ctx, w):
+    """A real episode opening: ``AdaptiveFilter.initialize`` generates the manoeuvre hypotheses from a stored estimate history,
+    screens out the infeasible ones (delta-v cap / Earth impact) and runs the first predict + update.  The database is replaced
+    by fixed query results (as the repository's own unit tests do); hypothesis generation, screening, models and update are real."""
+    import resonaate.estimation.adaptive.adaptive_filter as af_mod
+    from resonaate.common.labels import SensorLabel
+    from resonaate.data.ephemeris import EstimateEphemeris
+    from resonaate.data.observation import Observation
+    from resonaate.dynamics.two_body import TwoBody
+    from resonaate.estimation.adaptive.gpb1 import GeneralizedPseudoBayesian1
+    from resonaate.estimation.adaptive.initialization import lambertInitializationFactory
+    from resonaate.estimation.adaptive.mmae_stacking_utils import stackingFactory
+    from resonaate.estimation.adaptive.smm import StaticMultipleModel
+    from resonaate.estimation.kalman.unscented_kalman_filter import UnscentedKalmanFilter
+    from resonaate.estimation.maneuver_detection import StandardNis
+    from resonaate.physics.measurements import Measurement
+    from resonaate.physics.time.stardate import JulianDate
+
+    install()
+    stats = {"ended": None, "steps": 0}
+    _S.ctx, _S.wit, _S.stats, _S.frames = ctx, (lambda: dict(w)), stats, []
+    jd_start, jd_prior, jd_now = JulianDate(2459304.16666666665), JulianDate(2459304.208333333), JulianDate(2459304.270833333)
+    x_prior = np.array([1042.1334518641331, 1033.37035125107, 6705.6390684495655, 7.454413970030313, 0.916571711200926, -1.295920318595538])
+    dyn = TwoBody()
+
+    def est(jd, eci):
+        return EstimateEphemeris().fromCovarianceMatrix(julian_date=jd, agent_id=10001, source="Observation", covariance=np.zeros((6, 6)), eci=list(eci))
+
+    history = [est(jd_prior, x_prior), est(JulianDate(2459304.2152777775), dyn.propagate(3600, 4200, x_prior)), est(JulianDate(2459304.2638888885), dyn.propagate(3600, 8400, x_prior))]
+    est_x = dyn.propagate(3600, 9300, x_prior) + np.array([*w["offset"], 0.0, 0.0, 0.0])
+    sensor = np.array([-1.55267475e03, 1.47362430e03, 5.98812597e03, -1.07453539e-01, -1.14109571e-01, 2.19474290e-04])
+    labels = ["azimuth_rad", "elevation_rad"] if w["sensor"] == "optical" else ["azimuth_rad", "elevation_rad", "range_km", "range_rate_km_p_sec"]
+    meas = Measurement.fromMeasurementLabels(labels, np.diagflat([2.4e-11, 3.7e-11, 2.5e-5, 4.0e-8][: len(labels)]))
+    kind = SensorLabel.OPTICAL if w["sensor"] == "optical" else SensorLabel.ADV_RADAR
+    ob = Observation.fromMeasurement(epoch_jd=jd_now, target_id=10001, tgt_eci_state=est_x, sensor_id=100001, sensor_eci=sensor, sensor_type=kind, measurement=meas, noisy=False)
+    ob_prior = Observation.fromMeasurement(epoch_jd=jd_prior, target_id=10001, tgt_eci_state=x_prior, sensor_id=100001, sensor_eci=sensor, sensor_type=kind, measurement=meas, noisy=False)
+    saved = (af_mod.getDBConnection, af_mod.fetchEstimatesByJDInterval, af_mod.fetchObservationsByJDInterval)
+    af_mod.getDBConnection = lambda *a, **k: None
+    af_mod.fetchEstimatesByJDInterval = lambda *a, **k: history
+    af_mod.fetchObservationsByJDInterval = lambda *a, **k: [ob_prior]
+    try:
+        p0 = np.diagflat([1.0, 2.0, 1.0, 1, 1, 1])
+        nominal = UnscentedKalmanFilter(10001, 0.0, est_x, p0, TwoBody(), 3 * p0, StandardNis(0.01), None, False)
+        cls = StaticMultipleModel if w["name"] == "smm" else GeneralizedPseudoBayesian1
+        af = cls(nominal, 300, lambertInitializationFactory("lambert_universal"), stackingFactory("eci_stack"), 1, 300, w["prune_threshold"], 0.997)
+        af.time = 9300
+        gen = {}
+        orig = af._initialPruning  # noqa: SLF001
+
+        def spy(maneuvers, crashed, states):
+            gen["n"] = int(states.shape[0])
+            return orig(maneuvers, crashed, states)
+
+        af._initialPruning = spy  # noqa: SLF001
+        try:
+            started = af.initialize([ob], jd_start)
+        except Exception as e:  # noqa: BLE001
+            ctx.check(False, "initialize-raised", f"{cls.__name__}.initialize raised {type(e).__name__}: {str(e)[:160]} (hypotheses generated {gen.get('n')}, models kept {len(getattr(af, 'models', []))}, "
+                      f"{len(np.atleast_1d(getattr(af, 'model_weights', [])))} probabilities; {w['sensor']} detection)", dict(w), mon="prob_valid")
+            return {"screened": None}
+        n_models = len(af.models)
+        screened = gen.get("n", n_models) - n_models
+        if started and n_models >= 1:
+            pw = np.asarray(af.model_weights, dtype=float)
+            ok = pw.shape == (n_models,) and bool(np.all(np.isfinite(pw))) and bool(np.all(pw >= 0)) and abs(float(pw.sum()) - 1.0) <= 1e-9
+            ctx.check(ok, "initialize-probabilities-invalid", f"after {cls.__name__}.initialize: {pw.size} probabilities for {n_models} models, sum {float(pw.sum()) if pw.size else None!r} "
+                      f"({screened} of {gen.get('n')} hypotheses screened out; {w['sensor']} detection)", dict(w), mon="prob_valid")
+        return {"screened": screened, "models": n_models, "started": bool(started)}
+    finally:
+        af_mod.getDBConnection, af_mod.fetchEstimatesByJDInterval, af_mod.fetchObservationsByJDInterval = saved
+
+
 def run(ctx):
     np.seterr(all="ignore")
     import logging
@@ -992,6 +1064,16 @@ def run(ctx):
         for spec in edge_specs():
             idx += 1
             _finish(ctx, spec, run_history(ctx, spec), idx)
+    # real episode openings (hypothesis generation + feasibility screening + first update), both filters, both detection kinds
+    irng = ctx.pyrng("init")
+    for name in ("smm", "gpb1"):
+        for sensor in ("optical", "radar"):
+            w = {"kind": "initialize", "name": name, "sensor": sensor, "prune_threshold": irng.choice([0.0, 1e-20]),
+                 "offset": [irng.choice([250.0, 120.0, 400.0, 5.0]) * irng.choice([1, -1]), irng.choice([150.0, 60.0, 0.5]), irng.choice([-200.0, -80.0, 1.0])]}
+            r = run_initialize(ctx, w)
+            ctx.case(("initialize", name, sensor, tuple(w["offset"])), nontrivial=bool(r.get("screened")), sample={"initialize": w, "result": r} if name == "smm" else None)
+            ctx.count("initialize_episodes")
+            ctx.count("initialize_episodes_with_screened_hypotheses", int(bool(r.get("screened"))))
     # the repository scenario: one run per filter kind in the quick tier (shards 1, 2), several seeds in the thorough tier
     scen = []
     if ctx.quick:
@@ -1072,5 +1154,8 @@ def replay(ctx, w):
     logging.getLogger("resonaate").setLevel(logging.CRITICAL + 10)
     if w.get("kind") == "scenario":
         run_scenario(ctx, w)
+        return
+    if w.get("kind") == "initialize":
+        run_initialize(ctx, w)
         return
     run_history(ctx, dict(w), None)
